@@ -8,6 +8,7 @@ C16 — round 5c property theorems.
 import GoZero.C16.ProofsMap
 import GoZero.C16.ConcWheel
 import GoZero.C16.Reent
+import GoZero.C16.ProofsSet
 namespace GoZero.C16.CW
 
 /-! ## Cache + wheel goroutines, every schedule -/
@@ -296,3 +297,32 @@ theorem take_reentrant_loader_deadlocks (t k : Nat) (s s' : SF) (acts : List SFE
 example : mustWait { inflight := [(1, 7)] } 2 = false ∧ mustWait { inflight := [(1, 7)] } 1 = true := by decide
 
 end GoZero.C16.Reent
+
+/-! ## Go `int` width: the ring index stays below 2n -/
+namespace GoZero.C16
+
+theorem Ring.add_index_lt (r : Ring) (v : Nat) (hl : 0 < r.elems.length) (h : r.index < 2 * r.elems.length) :
+    (r.add v).elems.length = r.elems.length ∧ (r.add v).index < 2 * r.elems.length := by
+  unfold Ring.add
+  simp only [List.length_set, true_and]
+  split <;> omega
+
+/-- **The ring index never leaves `[0, 2n)`** (every `n ≥ 1`, every sequence of `Add`s) — with `n < 2^62` all of
+`index + 1`, `rlen << 1` and `index - rlen` therefore fit a 64-bit Go `int`, and `tie_ringAddIndex_width` shows that the
+machine's wrapped arithmetic is the unbounded arithmetic `ring_keeps_last_n_in_order` was proven about. -/
+theorem ring_index_lt_2n (n : Nat) (hn : 1 ≤ n) (vs : List Nat) :
+    ((Ring.new n).run vs).elems.length = n ∧ ((Ring.new n).run vs).index < 2 * n := by
+  have key : ∀ (vs : List Nat) (r : Ring), r.elems.length = n → r.index < 2 * n →
+      (r.run vs).elems.length = n ∧ (r.run vs).index < 2 * n := by
+    intro vs
+    induction vs with
+    | nil => intro r h1 h2; exact ⟨h1, h2⟩
+    | cons v vs ih =>
+      intro r h1 h2
+      have := Ring.add_index_lt r v (by omega) (by omega)
+      exact ih (r.add v) (by omega) (by omega)
+  exact key vs (Ring.new n) (by simp [Ring.new]) (by simp [Ring.new]; omega)
+
+example : ((Ring.new 3).run [1, 2, 3, 4, 5, 6, 7, 8, 9, 10, 11]).index = 5 := by decide
+
+end GoZero.C16
